@@ -1108,3 +1108,58 @@ def c14_kind_guard_mirrored(F, rep):
                   "%s::solve clears its output and refills it only when %s holds, but %s never reject(s) the failing case: the operation silently returns the empty set (e.g. inserting into `{}`, "
                   "whose kind is Empty, or inserting an element of another kind)" % (th, sorted(preds), [b["name"] for b in builders] or "its builders"), "%s (mech_set.lib)" % th, sample={"kernel": th, "predicates": sorted(preds)})
     rep.floor("C14-R9", "set kernels that refill a cleared output under a kind test", n, 1)
+
+
+# ---------------------------------------------------------------- C16-R10 broadcasting a scalar function over a matrix keeps order and shape
+def c16_broadcast_shape(F, rep):
+    rep.rule("C16-R10", "try_broadcast_user_function: the function is applied to every element in storage order (one push per element of matrix_like_values(source), no reordering or "
+                        "filtering adaptor, errors propagated) and the results are reassembled with (shape[0], shape[1]) of the SOURCE in that order; matrix_like_values enumerates every "
+                        "matrix kind through as_vec() (storage order), the order ToMatrix::to_matrix consumes")
+    its = [it for it in F.syn("mech_interpreter.lib") if it["k"] == "fn" and it["name"] == "try_broadcast_user_function" and it.get("body")]
+    if not rep.check(len(its) == 1, "C16-R10", "anchor:try_broadcast_user_function", "try_broadcast_user_function not found"):
+        return
+    body = its[0]["body"]
+    loops = [f for f in find(body, "for") if any(m[2] == "push" for m in find(f[3], "mcall")) and any((path_of(c[1]) or "").endswith("execute_user_function") for c in find(f[3], "call"))]
+    if rep.check(len(loops) == 1, "C16-R10", "anchor:element-loop", "the element loop was not found (%d)" % len(loops)):
+        lp = loops[0]
+        it_txt = render(lp[2]).replace(" ", "")
+        plain = re.match(r"^&?\w+(\.iter\(\)|\.into_iter\(\))?$", it_txt) is not None
+        src_elems = None
+        for st in find(body, "let"):
+            if any(b[1] == re.sub(r"\W.*$", "", it_txt.lstrip("&")) for b in find(st[1], "pident")) and st[2] is not None:
+                src_elems = render(st[2])
+        from_all = src_elems is not None and "matrix_like_values" in src_elems
+        pushes = [m for m in find(lp[3], "mcall") if m[2] == "push"]
+        one_per = len(pushes) == 1 and not any(x[0] in ("if", "match", "continue", "break") for x in walk(lp[3]) if x is not lp[3])
+        elem = [b[1] for b in find(lp[1], "pident")]
+        arg_ok = any((path_of(c[1]) or "").endswith("execute_user_function") and len(c[2]) >= 2 and elem and re.search(r"\b%s\b" % re.escape(elem[0]), render(c[2][1])) for c in find(lp[3], "call"))
+        ok = plain and from_all and one_per and arg_ok
+        rep.check(ok, "C16-R10", "broadcast:every-element-in-order" if ok else "broadcast:element-loop:%s" % ("iterates-" + re.sub(r"\W+", "-", it_txt)[:30] if not plain else "not-all-elements" if not from_all else "conditional-push" if not one_per else "argument"),
+                  "try_broadcast_user_function iterates `%s` (elements from `%s`) and pushes %d result(s) per element: the output does not hold f(element) for every element in storage order" % (
+                      render(lp[2])[:40], (src_elems or "?")[:50], len(pushes)), "try_broadcast_user_function (mech_interpreter.lib)")
+    builds = [c for c in find(body, "call") if (path_of(c[1]) or "").endswith("build_typed_matrix_from_values")]
+    if rep.check(len(builds) == 1, "C16-R10", "anchor:reassembly", "build_typed_matrix_from_values call not found"):
+        a = [render(x).replace(" ", "") for x in builds[0][2]]
+        shape_src = None
+        for st in find(body, "let"):
+            if st[1][0] == "pident" and st[1][1] == "shape" and st[2] is not None:
+                shape_src = render(st[2]).replace(" ", "")
+        ok = len(a) == 4 and a[2] == "shape[0]" and a[3] == "shape[1]" and shape_src == "source.shape()"
+        rep.check(ok, "C16-R10", "broadcast:source-shape" if ok else "broadcast:shape-%s" % re.sub(r"\W+", "-", ",".join(a[2:]))[:30],
+                  "the broadcast result is reassembled with (%s) from `%s`: expected (shape[0], shape[1]) of source.shape() - a non-square matrix comes back transposed or reshaped" % (
+                      ", ".join(a[2:]), shape_src), "try_broadcast_user_function (mech_interpreter.lib)")
+    ml = [it for it in F.syn("mech_interpreter.lib") if it["k"] == "fn" and it["name"] == "matrix_like_values" and it.get("body")]
+    if rep.check(len(ml) == 1, "C16-R10", "anchor:matrix_like_values", "matrix_like_values not found"):
+        n_arm = n_ok = 0
+        for m in find(ml[0]["body"], "match"):
+            for arm in m[2]:
+                if not re.search(r"Value::Matrix\w+\(", render_pat(arm[0])):
+                    continue
+                n_arm += 1
+                txt = render(arm[2]).replace(" ", "")
+                if re.search(r"\.as_vec\(\)(\.into_iter\(\)\.map\(|\)$)", txt) and not re.search(r"\.rev\(\)|\.skip\(|\.step_by\(|\.filter\(|transpose", txt):
+                    n_ok += 1
+                else:
+                    rep.bad("C16-R10", "matrix_like_values:%s" % re.sub(r"[^A-Za-z0-9]+", "-", render_pat(arm[0]))[:40],
+                            "matrix_like_values enumerates %s as `%s`, not as_vec() in storage order" % (render_pat(arm[0])[:30], render(arm[2])[:60]), "matrix_like_values (mech_interpreter.lib)")
+        rep.floor("C16-R10", "matrix kinds enumerated through as_vec()", n_ok, 10)
